@@ -173,11 +173,16 @@ impl TypeCheckable for FunctionCall {
 
 impl fmt::Display for FunctionCall {
     fn fmt(&self, f: &mut fmt::Formatter<'_>) -> fmt::Result {
-        let builtin = std_fn_to_string(self);
-        if let Some(string) = builtin {
-            return write!(f, "{}", string);
-        }
+        // the `a..b` spelling of a range is only grammatical as the set of an
+        // iteration, which writes it itself (see `as_iterator_string`)
         write!(f, "{}", default_rooc_function_to_string(self))
+    }
+}
+
+impl FunctionCall {
+    /// The spelling of this call as the set of an iteration (`i in 0..3`).
+    pub fn as_iterator_string(&self) -> String {
+        std_fn_to_string(self).unwrap_or_else(|| self.to_string())
     }
 }
 
